@@ -161,6 +161,7 @@ type DynBuf interface {
 	HeaderPtr() uintptr
 	ElemSize() int
 	SliceSink(s, e int)
+	ZeroLike() DynBuf
 }
 
 type B[T signal.SignalTypes] struct {
@@ -247,6 +248,9 @@ func (x *B[T]) KeptChanShape(c int) (int, int, int) {
 	ch := x.chanView(c)
 	return ch.Channels(), ch.Length(), ch.Capacity()
 }
+
+// ZeroLike returns the zero value of the buffer type (`&signal.Buffer[T]{}`): no channels, no storage, depth 0
+func (x *B[T]) ZeroLike() DynBuf { return &B[T]{b: &signal.Buffer[T]{}, k: x.k} }
 
 // SliceSink calls Slice without the harness wrapper; the result escapes into a package-level sink.
 func (x *B[T]) SliceSink(s, e int) { sinkAny = x.b.Slice(s, e) }
